@@ -12,6 +12,7 @@ import (
 	"time"
 
 	"go.brendoncarroll.net/p2p"
+	"go.brendoncarroll.net/p2p/p/mbapp"
 	"go.brendoncarroll.net/p2p/s/sshswarm"
 	"pgregory.net/rapid"
 
@@ -29,6 +30,7 @@ type askPlan struct {
 	deadline      time.Duration
 	group         int
 	closeServer   bool // close the server node right before this ask
+	closeDuring   bool // close the server node while this ask's (slow) handler is running
 	desc          string
 }
 
@@ -112,6 +114,9 @@ func runAsks(w *stack.World, plans []askPlan, serveLoops int) (results []askResu
 							}
 							return -1
 						}
+						if plan.behaviour == "slow-answer" {
+							time.Sleep(30 * time.Millisecond)
+						}
 						// answer: response bytes unique to this invocation
 						out := make([]byte, plan.respLen)
 						seed := make([]byte, 16)
@@ -175,6 +180,13 @@ func runAsks(w *stack.World, plans []askPlan, serveLoops int) (results []askResu
 				results[i] = askResult{n: n, err: err, resp: buf, took: time.Since(t0)}
 			}()
 		}
+		for _, i := range groups[g] {
+			if plans[i].closeDuring {
+				srv := plans[i].server
+				time.Sleep(8 * time.Millisecond)
+				w.Nodes[srv].S.Close()
+			}
+		}
 		wg.Wait()
 	}
 	cancel()
@@ -234,7 +246,19 @@ func genAskPlans(t *rapid.T, nNodes, mtu, part, maxAsks int, allowClose bool) []
 			}
 		}
 		p.group = group
-		if allowClose && !closed[p.server] && !closed[p.asker] && rapid.IntRange(0, 11).Draw(t, "closeServer") == 0 {
+		if allowClose && !closed[p.server] && !closed[p.asker] && p.behaviour == "answer" && p.bufLen >= p.respLen && rapid.IntRange(0, 9).Draw(t, "closeDuring") == 0 {
+			// the server is closed while its handler is still working on this ask
+			p.behaviour = "slow-answer"
+			if p.respLen == 0 {
+				p.respLen, p.bufLen = 8, 8
+			}
+			p.closeDuring = true
+			group++
+			p.group = group
+			group++
+			closed[p.server] = true
+			p.deadline = 2 * time.Second
+		} else if allowClose && !closed[p.server] && !closed[p.asker] && rapid.IntRange(0, 11).Draw(t, "closeServer") == 0 {
 			p.closeServer = true
 			group++
 			p.group = group
@@ -249,7 +273,9 @@ func genAskPlans(t *rapid.T, nNodes, mtu, part, maxAsks int, allowClose bool) []
 			continue // a closed node does not ask
 		}
 		p.desc = fmt.Sprintf("%d->%d req=%d resp=%d buf=%d %s g%d", p.asker, p.server, p.reqLen, p.respLen, p.bufLen, p.behaviour, p.group)
-		if p.closeServer {
+		if p.closeDuring {
+			p.desc += " [server closed while handling]"
+		} else if p.closeServer {
 			p.desc += " [server closed]"
 		} else if closed[p.server] {
 			p.desc += " [to closed]"
@@ -288,7 +314,7 @@ func checkAsks(t *rapid.T, sub string, w *stack.World, desc string, plans []askP
 				fail("ask %d (%s) to a node that had been closed returned success with %d bytes", i, p.desc, r.n)
 			}
 			switch {
-			case p.behaviour != "answer":
+			case p.behaviour != "answer" && p.behaviour != "slow-answer":
 				fail("ask %d (%s): the handler signalled failure / never answered, yet Ask returned success with %d bytes", i, p.desc, r.n)
 			case p.bufLen < p.respLen:
 				fail("ask %d (%s): the %d-byte response does not fit the %d-byte buffer, yet Ask returned success with n=%d (truncated)", i, p.desc, p.respLen, p.bufLen, r.n)
@@ -356,11 +382,14 @@ func closedIndex(plans []askPlan) map[int]int {
 		if p.closeServer {
 			m[p.server] = i
 		}
+		if p.closeDuring {
+			m[p.server] = i + 1 // this very ask may still be answered by the handler that was running
+		}
 	}
 	return m
 }
 
-const c11Rule = "2-4 nodes, 1-N asks: (asker, server, request length incl. multi-part, response length incl. multi-part and empty, asker buffer >= or < the response, handler behaviour in {answer with bytes unique to the invocation, negative return, block until its context ends}, context deadline, concurrency group), symmetric bursts (A asks B while B asks A with equal shapes), optional Close of a server before an ask. Oracle: err == nil implies resp[:n] is exactly what a handler invocation produced for exactly this request from exactly this asker; a negative handler, a closed destination, a response larger than the buffer or an ended context imply err != nil no later than the deadline plus slack. non-trivial = concurrent asks, or a failure class; distinct by (spec, plan list)"
+const c11Rule = "2-4 nodes, 1-N asks: (asker, server, request length incl. multi-part, response length incl. multi-part and empty, asker buffer >= or < the response, handler behaviour in {answer with bytes unique to the invocation, negative return, block until its context ends}, context deadline, concurrency group), symmetric bursts (A asks B while B asks A with equal shapes), optional Close of a server before an ask or while its (slow) handler is working on one. Oracle: err == nil implies resp[:n] is exactly what a handler invocation produced for exactly this request from exactly this asker; a negative handler, a closed destination, a response larger than the buffer or an ended context imply err != nil no later than the deadline plus slack. non-trivial = concurrent asks, or a failure class; distinct by (spec, plan list)"
 
 func TestC11Mem(t *testing.T) {
 	const sub = "C11.mem_stacks"
@@ -431,4 +460,98 @@ func sameSender(w *stack.World, got, want string) bool {
 		return cut(got) == cut(want)
 	}
 	return got == want
+}
+
+// TestC11MbappReplyOrigin: a reply is only accepted from the peer that was asked.
+func TestC11MbappReplyOrigin(t *testing.T) {
+	const sub = "C11.mbapp_reply_origin"
+	ev.Rule(sub, "rapid: a message-box swarm R on a scripted transport asks peer S; the harness sees the request on the wire and injects, in a generated order and possibly several times, well-formed reply packets that echo the request's id: from S (the genuine answer, single- or multi-part) and from other addresses (a third peer's bytes). Oracle: a successful Ask returns exactly S's answer; bytes sent by any other address are never returned. non-trivial = a foreign reply injected before S's; distinct by (sizes, order)")
+	rapid.Check(t, func(t *rapid.T) {
+		inner := rapid.SampledFrom([]int{100, 300}).Draw(t, "innerMTU")
+		part := inner - mbapp.HeaderSize
+		r := newFragInst("mbapp", 1, inner, part*20, rapid.IntRange(1, 3).Draw(t, "workers"))
+		defer r.top.Close()
+		sAddr, cAddr := stack.SAddr{N: 2}, stack.SAddr{N: 3}
+		genuine := bytes.Repeat([]byte("S"), rapid.SampledFrom([]int{1, 20, part, part + 5, 3 * part}).Draw(t, "answerLen"))
+		foreign := bytes.Repeat([]byte("C"), rapid.SampledFrom([]int{1, 20, len(genuine)}).Draw(t, "foreignLen"))
+		type out struct {
+			n   int
+			err error
+			buf []byte
+		}
+		done := make(chan out, 1)
+		go func() {
+			buf := make([]byte, part*20)
+			ctx, cf := context.WithTimeout(context.Background(), 800*time.Millisecond)
+			defer cf()
+			n, err := r.ask.Ask(ctx, buf, sAddr, p2p.IOVec{[]byte("question")})
+			done <- out{n, err, buf}
+		}()
+		var req []stack.Sent
+		if !waitFor(time.Second, func() bool { req = append(req, r.script.Take()...); return len(req) > 0 }) {
+			t.Fatalf("the ask produced no request on the transport")
+		}
+		reqHdr := mbapp.Header(append([]byte{}, req[0].Data[:mbapp.HeaderSize]...))
+		mkReply := func(body []byte) [][]byte {
+			n := (len(body) + part - 1) / part
+			if n == 0 {
+				n = 1
+			}
+			var pkts [][]byte
+			for i := 0; i < n; i++ {
+				h := mbapp.Header(append([]byte{}, reqHdr...))
+				h.SetIsAsk(true)
+				h.SetIsReply(true)
+				h.SetErrorCode(0)
+				h.SetPartIndex(uint16(i))
+				h.SetPartCount(uint16(n))
+				h.SetTotalSize(uint32(len(body)))
+				lo, hi := i*part, min((i+1)*part, len(body))
+				pkts = append(pkts, append([]byte(h), body[lo:hi]...))
+			}
+			return pkts
+		}
+		type inj struct {
+			from stack.Addr
+			data []byte
+		}
+		var sched []inj
+		for _, p := range mkReply(genuine) {
+			sched = append(sched, inj{sAddr, p})
+		}
+		foreignFirst := false
+		for k := 0; k < rapid.IntRange(1, 3).Draw(t, "foreignCopies"); k++ {
+			for _, p := range mkReply(foreign) {
+				sched = append(sched, inj{cAddr, p})
+			}
+		}
+		perm := rapid.Permutation(indices(len(sched))).Draw(t, "order")
+		if sched[perm[0]].from == cAddr {
+			foreignFirst = true
+		}
+		for _, i := range perm {
+			if p, ok := r.script.Inject(sched[i].from, sched[i].data, time.Second); !ok || p != "" {
+				t.Fatalf("the swarm failed on a well-formed reply: %q handled=%v", p, ok)
+			}
+		}
+		ev.Eval(sub)
+		desc := fmt.Sprintf("inner=%d answer=%dB foreign=%dB order=%v", inner, len(genuine), len(foreign), perm)
+		if foreignFirst {
+			if ev.NonTrivial(sub, desc) {
+				ev.Sample(sub, desc)
+			}
+		}
+		select {
+		case o := <-done:
+			if o.err == nil && !bytes.Equal(o.buf[:o.n], genuine) {
+				who := "bytes nobody sent"
+				if bytes.Contains(o.buf[:o.n], []byte("C")) {
+					who = "bytes sent by a peer that was not asked"
+				}
+				t.Fatalf("Ask to %v succeeded with %d bytes that are not the asked peer's %d-byte answer: %s\ncase: %s", sAddr, o.n, len(genuine), who, desc)
+			}
+		case <-time.After(3 * time.Second):
+			t.Fatalf("Ask did not return\ncase: %s", desc)
+		}
+	})
 }
